@@ -34,9 +34,9 @@ VALUES, START, STOP, STEP = P_('values'), P_('start'), P_('stop'), P_('step')
 
 
 def step_facts(kind):
-    none = ('cmp', 'is', STEP, T.CONST_NONE)
-    pos = ('cmp', '<', const(0), STEP)
-    neg = ('cmp', '<', STEP, const(0))
+    none = T.mkcmp('is', STEP, T.CONST_NONE)
+    pos = T.mkcmp('<', const(0), STEP)
+    neg = T.mkcmp('<', STEP, const(0))
     return {'none': {none: True}, 'pos': {none: False, pos: True, neg: False},
             'neg': {none: False, pos: False, neg: True}}[kind]
 
@@ -229,8 +229,8 @@ def rule_tables(ctx, fi):
                                                                 [True, False], [True, False]):
         scen = {'dec': dec, 'step': stepkind, 'start': has_start, 'stop': has_stop}
         facts = dict(step_facts(stepkind))
-        facts[('cmp', 'is', START, T.CONST_NONE)] = not has_start
-        facts[('cmp', 'is', STOP, T.CONST_NONE)] = not has_stop
+        facts[T.mkcmp('is', START, T.CONST_NONE)] = not has_start
+        facts[T.mkcmp('is', STOP, T.CONST_NONE)] = not has_stop
         ev = run(ctx, fi, bind={'issorted': const(False)}, facts=facts,
                  oracle=make_oracle(True, True, dec))
         rets = ret_paths(ev)
@@ -258,8 +258,8 @@ def rule_tables(ctx, fi):
     for stepkind in ('none', 'neg'):
         scen = {'dec': False, 'step': stepkind, 'start': True, 'stop': True}
         facts = dict(step_facts(stepkind))
-        facts[('cmp', 'is', START, T.CONST_NONE)] = False
-        facts[('cmp', 'is', STOP, T.CONST_NONE)] = False
+        facts[T.mkcmp('is', START, T.CONST_NONE)] = False
+        facts[T.mkcmp('is', STOP, T.CONST_NONE)] = False
         ev = run(ctx, fi, bind={'issorted': const(False)}, facts=facts, oracle=make_oracle(True, True, 'equal'))
         good = True
         for p in ret_paths(ev):
@@ -273,8 +273,8 @@ def rule_tables(ctx, fi):
     for stepkind in ('none', 'neg'):
         scen = {'dec': False, 'step': stepkind, 'start': True, 'stop': True}
         facts = dict(step_facts(stepkind))
-        facts[('cmp', 'is', START, T.CONST_NONE)] = False
-        facts[('cmp', 'is', STOP, T.CONST_NONE)] = False
+        facts[T.mkcmp('is', START, T.CONST_NONE)] = False
+        facts[T.mkcmp('is', STOP, T.CONST_NONE)] = False
         ev = run(ctx, fi, bind={'issorted': const(True)}, facts=facts, oracle=make_oracle(True, None, None))
         good = True
         for p in ret_paths(ev):
@@ -316,8 +316,8 @@ def rule_selection(ctx, fi):
         ctx.holds('R1', 'numeric monotonic axis -> bounding box')
     # non-numeric bound on numeric monotonic axis: TypeError
     for which in ('start', 'stop'):
-        facts = {('cmp', 'is', START, T.CONST_NONE): which != 'start',
-                 ('cmp', 'is', STOP, T.CONST_NONE): which != 'stop'}
+        facts = {T.mkcmp('is', START, T.CONST_NONE): which != 'start',
+                 T.mkcmp('is', STOP, T.CONST_NONE): which != 'stop'}
         ev = run(ctx, fi, bind={'issorted': const(False)}, facts=facts,
                  oracle=make_oracle(True, True, False, bound_numeric=False))
         bad = [p for p in ev.paths if not (p.kind == 'raise' and exc_name(p.value) == 'TypeError')]
@@ -333,8 +333,8 @@ def rule_strict(ctx):
     fi = ctx.fn(STRICT)
     for stepkind, has_start, has_stop in itertools.product(['none', 'pos', 'neg'], [True, False], [True, False]):
         facts = dict(step_facts(stepkind))
-        facts[('cmp', 'is', START, T.CONST_NONE)] = not has_start
-        facts[('cmp', 'is', STOP, T.CONST_NONE)] = not has_stop
+        facts[T.mkcmp('is', START, T.CONST_NONE)] = not has_start
+        facts[T.mkcmp('is', STOP, T.CONST_NONE)] = not has_stop
         ev = run(ctx, fi, facts=facts)
         inst = 'step %s, start %s, stop %s' % (stepkind, has_start, has_stop)
         ok = True
@@ -387,7 +387,7 @@ def rule_plumbing(ctx):
     fi = ctx.fn('dimarray.core.bases.AbstractAxis.loc')
     ls = ctx.fn(LS)
     VAL = P_('val')
-    isslice = ('cmp', 'is', ('call', ('name', 'type'), (VAL,), ()), ('name', 'slice'))
+    isslice = T.mkcmp('is', ('call', ('name', 'type'), (VAL,), ()), ('name', 'slice'))
 
     def oracle(atom, st):
         if atom == isslice:
